@@ -124,4 +124,8 @@ theorem C19_cx_elk_child_outside : ¬ encloses1px ⟨12, 12, 354, 166⟩ ⟨-15,
 theorem C19_cx_dagre_spacing_overlap : ¬ disjoint1px ⟨112, 4, 491, 329⟩ ⟨455, 50, 63, 66⟩ := by
   unfold disjoint1px disjointTol px Box.right Box.bottom; norm_num
 
+/-- dagre, `direction: left`, nested containers: `n1.n2` starts 11 px above its container `n1` -/
+theorem C19_cx_dagre_horizontal_child_above_nested : ¬ encloses1px ⟨40, 128, 607, 312⟩ ⟨70, 117, 122, 293⟩ := by
+  unfold encloses1px encloses px Box.right Box.bottom; norm_num
+
 end D2V.Lay
